@@ -219,13 +219,22 @@ func TestC02_PoolMembership(t *testing.T) {
 			lisCalls++
 			lisOld, lisNew = oldReq.URL.String(), key(newReq.URL)
 		}
+		// "no error handler of my own" spelled as an explicit nil option: the stock one stays in charge
+		nilErrHandler := rapid.IntRange(0, 4).Draw(t, "errorHandlerOptionNil") == 0
 		build := func(handler http.Handler, lis roundrobin.RequestRewriteListener) (pool, func() (*url.URL, error), func(*url.URL) (int, bool)) {
 			if useRebalancer {
-				rr, err := roundrobin.New(handler)
+				var innerOpts []roundrobin.LBOption
+				if nilErrHandler {
+					innerOpts = append(innerOpts, roundrobin.ErrorHandler(nil))
+				}
+				rr, err := roundrobin.New(handler, innerOpts...)
 				if err != nil {
 					t.Fatal(err)
 				}
 				opts := append([]roundrobin.RebalancerOption{}, rbOpts...)
+				if nilErrHandler {
+					opts = append(opts, roundrobin.RebalancerErrorHandler(nil))
+				}
 				if lis != nil {
 					opts = append(opts, roundrobin.RebalancerRequestRewriteListener(lis))
 				}
@@ -248,6 +257,9 @@ func TestC02_PoolMembership(t *testing.T) {
 				return rb, rr.NextServer, rr.ServerWeight
 			}
 			o2 := append([]roundrobin.LBOption{}, rrOpts...)
+			if nilErrHandler {
+				o2 = append(o2, roundrobin.ErrorHandler(nil))
+			}
 			if lis != nil {
 				o2 = append(o2, roundrobin.RoundRobinRequestRewriteListener(lis))
 			}
@@ -470,6 +482,11 @@ func TestC02_PoolMembership(t *testing.T) {
 				u := genURL(t, "r")
 				k := key(u)
 				idx := m.find(k)
+				if idx >= 0 { // the rotation is somewhere in the middle of the list when the member goes
+					for j := rapid.IntRange(0, 3).Draw(t, "selectionsBeforeRemoval"); j > 0; j-- {
+						request(false, "", 0)
+					}
+				}
 				before := renderServers(p)
 				err := p.RemoveServer(u)
 				log = append(log, fmt.Sprintf("remove(%s)=%v", u, err))
@@ -484,6 +501,9 @@ func TestC02_PoolMembership(t *testing.T) {
 						t.Fatalf("twin remove(%s): %v", u, err2)
 					}
 					m.es = append(m.es[:idx], m.es[idx+1:]...)
+					for j := rapid.IntRange(0, 2).Draw(t, "selectionsAfterRemoval"); j > 0; j-- {
+						request(false, "", 0) // whoever is chosen next is a positive-weight member
+					}
 				} else {
 					ntUnknownRemove = true
 					if err == nil {
